@@ -183,14 +183,16 @@ func jsonFileScenario(r *Run) {
 	}
 	oc := RunGatedPool(r, node, workers, ctl, produce, func(execution.ProduceContext, execution.MetadataMessage) error { return nil }, choose, 100000)
 	r.Sched(strings.Join(schedule, ","))
-	r.AddEvents(len(got))
+	if oc.Finished {
+		r.AddEvents(len(got))
+	}
 	r.FaultN("short_read", disk.FiredCount("short_read"))
 	r.FaultN("read_error", disk.FiredCount("read_error"))
 	if gateWorkers && len(schedule) > 1 {
 		r.Fault("worker_reordering_controlled")
 	}
-	r.Log("run returned err=%v finished=%v deadlock=%v records=%d", oc.Err, oc.Finished, oc.Deadlock, len(got))
 	if oc.Deadlock {
+		r.Log("run did not return: deadlock")
 		r.Violate("C23", "deadlock", attrs, "json source neither finished nor has any parked hand-off left (workers=%d, lines=%d)", workers, nLines)
 		return
 	}
@@ -198,6 +200,7 @@ func jsonFileScenario(r *Run) {
 		r.Infra("step cap reached")
 		return
 	}
+	r.Log("run returned err=%v records=%d", oc.Err, len(got))
 	if oc.Err != nil {
 		r.Violate("C23", "run_error", attrs, "json source failed on a well-formed file: %v", oc.Err)
 		return
